@@ -52,3 +52,39 @@ LEMMAS = [
      'forall(lambda k: implies(0 <= k and k < len(L), L[k][1] <= 1 and R[k][1] == L[k][1] * req)), '
      'R[w][1] == req and forall(lambda k: implies(0 <= k and k < len(R), R[k][1] <= req))))'),
 ]
+
+# ---------------------------------------------------------------- merging patterns (C14, last clause): abundances at equal masses add up
+# INN(L, p, k, x): total abundance, among the first k peaks of pattern L, of those whose (rounded) mass is x;  OUT(D, p, s, x): the same
+# summed over the first s patterns of D
+MACROS = {'mkey': (['m', 'p'], '(m if p is None else round(m, some(p)))')}
+FUNCS['INN'] = (['Peaks', 'Optional[int]', 'int', 'real'], 'real')
+FUNCS['OUT'] = (['List[Peaks]', 'Optional[int]', 'int', 'real'], 'real')
+AXIOMS += [
+    ('INN-0', 'forall(lambda L=Peaks, p=Optional[int], x=real: INN(L, p, 0, x) == 0)'),
+    ('INN-step', 'forall(lambda L=Peaks, p=Optional[int], k=int, x=real: implies(k >= 0, INN(L, p, k + 1, x) == INN(L, p, k, x) + (L[k][1] if mkey(L[k][0], p) == x else 0)))'),
+    ('OUT-0', 'forall(lambda D=List[Peaks], p=Optional[int], x=real: OUT(D, p, 0, x) == 0)'),
+    ('OUT-step', 'forall(lambda D=List[Peaks], p=Optional[int], s=int, x=real: implies(s >= 0, OUT(D, p, s + 1, x) == OUT(D, p, s, x) + INN(D[s], p, len(D[s]), x)))'),
+]
+_SEEN_OUT = 'exists(lambda d=int, k=int: 0 <= d and d < {s} and 0 <= k and k < len(distributions[d]) and mkey(distributions[d][k][0], precision) == x)'
+_SEEN_INN = 'exists(lambda k=int: 0 <= k and k < {k} and mkey(distribution[k][0], precision) == x)'
+C[ISO + 'merge_isotopic_distributions'] = dict(
+    params=dict(distributions='List[Peaks]', precision='Optional[int]'), returns='Peaks', pure=True, raises={},
+    locals=dict(merged_distribution='Dict[real,real]'), axioms=['INN-0', 'INN-step', 'OUT-0', 'OUT-step'],
+    exit_lemmas=[('every-key-is-listed', 'forall(lambda x=real: implies(x in merged_distribution, exists(lambda i: 0 <= i and i < len(result) and result[i][0] == x)))'),
+                 ('every-peak-has-its-key', 'forall(lambda d=int, k=int: implies(0 <= d and d < len(distributions) and 0 <= k and k < len(distributions[d]), '
+                                            'mkey(distributions[d][k][0], precision) in merged_distribution))')],
+    ensures=[('sorted-by-mass-each-mass-once', 'forall(lambda i, j: implies(0 <= i and i < j and j < len(result), result[i][0] < result[j][0]))'),
+             ('abundance-at-a-mass-is-the-total-over-all-peaks-there',
+              'forall(lambda i: implies(0 <= i and i < len(result), result[i][1] == OUT(distributions, precision, len(distributions), result[i][0])))'),
+             ('every-listed-mass-comes-from-a-peak', 'forall(lambda i: implies(0 <= i and i < len(result), ' + _SEEN_OUT.format(s='len(distributions)').replace('== x)', '== result[i][0])') + '))'),
+             ('every-peak-is-listed', 'forall(lambda d=int, k=int: implies(0 <= d and d < len(distributions) and 0 <= k and k < len(distributions[d]), '
+                                      'exists(lambda i: 0 <= i and i < len(result) and result[i][0] == mkey(distributions[d][k][0], precision))))')],
+    invariants={
+        0: [('keys', 'forall(lambda x=real: (x in merged_distribution) == ' + _SEEN_OUT.format(s='_k0') + ')'),
+            ('totals', 'forall(lambda x=real: implies(x in merged_distribution, merged_distribution[x] == OUT(distributions, precision, _k0, x)))'),
+            ('nothing-at-unseen-masses', 'forall(lambda x=real: implies(not (x in merged_distribution), OUT(distributions, precision, _k0, x) == 0))')],
+        1: [('keys', 'forall(lambda x=real: (x in merged_distribution) == (' + _SEEN_OUT.format(s='_k0') + ' or ' + _SEEN_INN.format(k='_k1') + '))'),
+            ('totals', 'forall(lambda x=real: implies(x in merged_distribution, merged_distribution[x] == OUT(distributions, precision, _k0, x) + INN(distribution, precision, _k1, x)))'),
+            ('nothing-at-unseen-masses', 'forall(lambda x=real: implies(not (x in merged_distribution), OUT(distributions, precision, _k0, x) + INN(distribution, precision, _k1, x) == 0))')],
+    },
+)
